@@ -68,6 +68,18 @@ def _make(name):
             inner = awesomeyaml.Config.build('q: !call:verif_targets.inner_' + name + ' {x: 1}\nr: !xref q\ns: [!xref q, !xref r]\n', raw_yaml=True)
             LOG.append((name, _safe_copy(args), _safe_copy(kwargs)))
             return Result(name, next(_counter), _safe_copy(args), {'inner_ok': inner['r'] is inner['q']})
+    elif name.startswith('none'):
+        def target(*args, **kwargs):
+            LOG.append((name, _safe_copy(args), _safe_copy(kwargs)))
+            return None
+    elif name.startswith('empty'):
+        def target(*args, **kwargs):
+            LOG.append((name, _safe_copy(args), _safe_copy(kwargs)))
+            return [] if name.endswith('l') else {}
+    elif name.startswith('zero'):
+        def target(*args, **kwargs):
+            LOG.append((name, _safe_copy(args), _safe_copy(kwargs)))
+            return 0
     elif name.startswith('plain'):
         def target(*args, **kwargs):
             LOG.append((name, _safe_copy(args), _safe_copy(kwargs)))
